@@ -40,6 +40,19 @@ impl VM {
         Ok(())
     }
 
+    /// Reserves `bytes` for a byte buffer (std.bytes, fs.read_bytes) under the heap limit: checked
+    /// before the host is asked for the memory, charged to the same counter as manual buffers.
+    pub fn charge_byte_buffer(&mut self, bytes: usize) -> Result<(), RuntimeError> {
+        self.ensure_heap_capacity(bytes as u64)?;
+        self.manual_heap.charge_external(bytes);
+        Ok(())
+    }
+
+    /// Gives back the charge of a byte buffer that was freed or shrunk.
+    pub fn release_byte_buffer(&mut self, bytes: usize) {
+        self.manual_heap.release_external(bytes);
+    }
+
     pub fn alloc_object(&mut self, object: GcObject) -> Result<GcRef, RuntimeError> {
         let size = Heap::estimate_object_size(&object) as u64;
         self.ensure_heap_capacity(size)?;
